@@ -2264,6 +2264,95 @@ func ruleProtocolAccessor(c *Ctx) {
 	}
 }
 
+// ruleVersionAccessor: NegotiatedVersion() reports Client.negotiatedVersion as
+// it is - every return hands out the field (or a local bound once to it). 0 is
+// a version like any other: a fallback for "the zero value" reports a version
+// that was never on the handshake line.
+func ruleVersionAccessor(c *Ctx) {
+	p := c.P
+	f := p.Fn("Client.NegotiatedVersion")
+	if f == nil {
+		c.R.Undecided("R-GATE/accessor", "Client.NegotiatedVersion", "anchor", "function not found")
+		return
+	}
+	info := f.Pkg.TypesInfo
+	fv := p.FieldObj(modPath, "Client", "negotiatedVersion")
+	n, bad := 0, false
+	walkNoLit(f.Body, func(x ast.Node) bool {
+		rs, ok := x.(*ast.ReturnStmt)
+		if !ok || len(rs.Results) != 1 {
+			return true
+		}
+		n++
+		r := ast.Unparen(rs.Results[0])
+		okRet := SelField(info, r) == fv && fv != nil
+		if v, isV := identObj(info, r).(*types.Var); isV && !v.IsField() {
+			if d := p.singleDef(f, v); d != nil && SelField(info, ast.Unparen(d)) == fv {
+				okRet = true
+			}
+		}
+		if !okRet {
+			bad = true
+			c.R.Violate("R-GATE/accessor", p.Pos(rs), f.Name, "the negotiated version is reported as recorded", "NegotiatedVersion() can return something other than Client.negotiatedVersion ("+exprStr(rs.Results[0])+"): the version reported is then not the one on the handshake line - 0 is a version that can be negotiated, not a marker for \"unset\"", nil)
+		}
+		return true
+	})
+	if n == 0 {
+		c.R.Undecided("R-GATE/accessor", f.Name, "the negotiated version is reported as recorded", "no return found")
+	} else if !bad {
+		c.R.Hold("R-GATE/accessor", p.Pos(f.Node()), f.Name, "the negotiated version is reported as recorded", "every return hands out Client.negotiatedVersion", true)
+	}
+}
+
+// ---------- R-MUX/handoff: the muxers never drop what they hand over ----------
+
+// ruleMuxHandoff: inside internal/grpcmux every channel send hands over
+// something that is counted on the other side - a knocked id, an accepted
+// stream, the wake-up that licenses exactly one session.Accept(). None of them
+// may be lost: no send is an arm of a select that has a default clause. (Two
+// knocks coalesced into one wake-up leave a stream in the yamux backlog, where
+// the next id's listener picks it up.)
+func ruleMuxHandoff(c *Ctx) {
+	p := c.P
+	n, bad := 0, false
+	for _, f := range p.Funcs {
+		if f.Pkg.PkgPath != modPath+"/internal/grpcmux" || !notTesting(p, f) {
+			continue
+		}
+		ast.Inspect(f.Body, func(x ast.Node) bool {
+			ss, ok := x.(*ast.SendStmt)
+			if !ok {
+				return true
+			}
+			if p.EnclosingFunc(ss) != f {
+				return true
+			}
+			n++
+			droppable := false
+			if cc, isComm := p.Parent(ss).(*ast.CommClause); isComm && cc.Comm == ast.Stmt(ss) {
+				if body, isBody := p.Parent(cc).(*ast.BlockStmt); isBody {
+					for _, cl := range body.List {
+						if other, isCC := cl.(*ast.CommClause); isCC && other.Comm == nil {
+							droppable = true
+						}
+					}
+				}
+			}
+			construct := "send on " + p.chanDesc(f, ss.Chan)
+			if droppable {
+				bad = true
+				c.R.Violate("R-MUX/handoff", p.Pos(ss), f.Name, construct, "this hand-over can be dropped (the select has a default clause): every knock and every wake-up stands for exactly one stream - one that is lost leaves that stream unclaimed in the yamux backlog, and the next listener to accept takes a connection that was dialled for another id", nil)
+			} else {
+				c.R.Hold("R-MUX/handoff", p.Pos(ss), f.Name, construct, "not an arm of a select with a default clause", true)
+			}
+			return true
+		})
+	}
+	if n < 4 && !bad {
+		c.R.Undecided("R-MUX/handoff", "", "instance-floor", fmt.Sprintf("only %d sends found in internal/grpcmux, 5 were confirmed by hand", n))
+	}
+}
+
 // ---------- R-BOUND/poll: the reattached pid is polled at a constant, short interval ----------
 
 // rulePidPoll: pidWait notices the exit of a process that is not our child
